@@ -6,8 +6,11 @@ import fcntl, hashlib, json, os, re, shutil, subprocess, sys, time
 
 VERIF = os.path.dirname(os.path.dirname(os.path.realpath(__file__)))     # /verif, or a snapshot of it (vp run)
 SPEC = f"{VERIF}/spec"
-WORK = f"{VERIF}/work"
-HARNESS = f"{VERIF}/harness"
+# a self-test run against a patched scratch copy of the repository uses its own harness copy, work and evidence directories
+WORK = os.environ.get("VERIF_WORK", f"{VERIF}/work")
+HARNESS = os.environ.get("VERIF_HARNESS", f"{VERIF}/harness")
+EVIDENCE = os.environ.get("VERIF_EVIDENCE", f"{VERIF}/evidence")
+REPLAYS = os.environ.get("VERIF_REPLAYS", f"{VERIF}/replays")
 RUN = f"{HARNESS}/target/debug/run"
 JARS = "/opt/veriftools/tla/tla2tools.jar:/opt/veriftools/tla/CommunityModules-deps.jar"
 CLASSES = f"{SPEC}/classes"
@@ -187,10 +190,10 @@ def cex_events(dump_path):
 
 
 def write_script(events, consts, prop, note=""):
-    os.makedirs(f"{VERIF}/replays", exist_ok=True)
+    os.makedirs(REPLAYS, exist_ok=True)
     body = json.dumps({"property": prop, "consts": consts, "events": events, "note": note}, sort_keys=True)
     h = hashlib.sha1(body.encode()).hexdigest()[:10]
-    path = f"{VERIF}/replays/{prop}-{h}.json"
+    path = f"{REPLAYS}/{prop}-{h}.json"
     with open(path, "w") as f:
         f.write(body)
     return path
